@@ -775,7 +775,7 @@ class Env:
                             with open(os.path.join(p, fn), 'rb') as fh:
                                 out[d + fn] = 'F' + hashlib.sha1(fh.read()).hexdigest()
             if os.path.exists(os.path.join(self.jd, 'packs', 'jugpack')):
-                for k, v in file_store(self.jd).packed.items():
+                for k, v in storefaults.pack_on_disk(self.jd).items():
                     out[hx(k)] = out.get(hx(k), '') + 'P' + hashlib.sha1(pickle.dumps(v)).hexdigest()
         elif self.backend == 'dict':
             if os.path.exists(self.dfile):
